@@ -10,16 +10,27 @@
 //              Ra   slot[a].Reset()                                Wab  slot[a].SwapContents(slot[b])
 //              Xag  slot[a].SwapContents(global[g])  (hand-off)    Va   if (slot[a]()) slot[a]()->val = tid+1
 //              Kab  {ConstRef<Obj> c = AddConstToRef(slot[b]); slot[a] = CastAwayConstFromRef(c);}
+//              objects hold a reference themselves (member `Ref<Obj> next`):
+//              Lab  slot[a]()->next = slot[b]   (only if slot a is the ONLY reference to its object, and slot b is NULL or counts another object)
+//              Ua   slot[a]()->next.Reset()      (same privacy guard)
+//              Ta   slot[a] = slot[a]()->next    Qa  slot[a].SetRef(slot[a]()->next())      (the linked-list pop)
+//              non-counting Refs:
+//              Yab  slot[a].SetRef(slot[b](), false)      Ma  slot[a].SetRef(slot[a](), true)  (only if another slot of the thread counts the same object)
+//              Da   slot[a].SetRef(slot[a](), false)      Za  slot[a].Neutralize()
+//              (Sab is skipped unless slot b is NULL or counting; Va, Lab, Ua, Ta, Qa need a counting slot a: a non-counting Ref may dangle)
 //    event   = `<i>`: thread i takes one step (from its park point to its next one) if it has not finished, else SKIP
 //    after the listed events the TAIL rule completes the run (lowest unfinished thread steps).
 //
 // Park points: an explicit yieldPoint() at the start of every operation; the hook before every AtomicIncrement/AtomicDecrement
-// of a reference count; the hook before Lock(pool._mutex); the first node destructor inside `delete slabToDelete` (outside the lock).
+// of a reference count; the hook before Lock(pool._mutex); in ReleaseObject() the return of the pthread_mutex_unlock() that
+// releases pool._mutex (this file interposes on that function: there is no hook behind the unlock, and what the code does
+// between the unlock and `delete slabToDelete` must be a step of its own); the first node destructor inside
+// `delete slabToDelete` (outside the lock).
 //
 // Result line: one token per event `<i>:<o>`, o = `-` skipped | `<events>=<digest>`;
 //    events (in program order): n<k> new heap object k | S new slab | o<k> ObtainObject() returned k (`!v` if its payload v != 0) |
 //                               r<k> k reset to default by ReleaseObject | d<k> heap object k destroyed | F a slab destroyed
-//    digest = every live object `k/refcount/payload` in identity order (`_` if none); identities k are first-seen numbers.
+//    digest = every live object `k/refcount/payload[>next]` in identity order (`_` if none); identities k are first-seen numbers.
 //    then `|`, the tail's tokens, the verdict, `cur=<_curPoolSize>` and `L=<_numNodesInUse of each slab in slab-list order>`.
 #include <string>
 #include <vector>
@@ -28,6 +39,8 @@
 #include <algorithm>
 #include <deque>
 #include <signal.h>
+#include <dlfcn.h>
+#include <pthread.h>
 #include <typeinfo>
 #include "system/Mutex.h"
 #include "util/OutputPrinter.h"
@@ -46,6 +59,33 @@
 
 using namespace muscle;
 
+// ---------------------------------------------------------------------------------------------------------------------
+// Interposition on pthread_mutex_unlock (the executable's definition wins over libc's): lets a managed thread that is
+// inside ObjectPool::ReleaseObject() park right AFTER it has really released the pool's mutex.
+static pthread_mutex_t * g_poolNative = NULL;      // the pthread mutex inside pool._mutex (found by recording, see Exec::run)
+static bool g_recordUnlock = false;
+static pthread_mutex_t * g_recorded = NULL;
+static int g_releaseUnlocksDue[16];                // per managed thread: ReleaseObject() calls that have not unlocked the pool yet
+typedef int (*vh_unlock_fn)(pthread_mutex_t *);
+static vh_unlock_fn g_realUnlock = NULL;
+static bool g_resolvingUnlock = false;
+static void vhAfterPoolUnlock();
+extern "C" int pthread_mutex_unlock(pthread_mutex_t * m)
+{
+   if (g_realUnlock == NULL)
+   {
+      if (g_resolvingUnlock) return 0;   // dlsym's own bookkeeping while we resolve (single-threaded start-up)
+      g_resolvingUnlock = true;
+      g_realUnlock = (vh_unlock_fn) dlvsym(RTLD_NEXT, "pthread_mutex_unlock", "GLIBC_2.2.5");
+      if (g_realUnlock == NULL) g_realUnlock = (vh_unlock_fn) dlsym(RTLD_NEXT, "pthread_mutex_unlock");
+      g_resolvingUnlock = false;
+   }
+   const int r = g_realUnlock(m);
+   if (g_recordUnlock) g_recorded = m;
+   else if ((m == g_poolNative)&&(m != NULL)) vhAfterPoolUnlock();
+   return r;
+}
+
 namespace {
 
 enum {MAXT = 6, NSLOTS = 3, NGLOB = 2, MAXN = 4, TAIL_CAP = 4000};
@@ -60,7 +100,8 @@ struct Info
    bool alive;       // handed out / constructed and not yet released
    uint32_t acq, rel;
    long slab; int idx;  // slab serial number and construction index of a slab node
-   Info() : heap(false), canon(-1), alive(false), acq(0), rel(0), slab(-1), idx(-1) {}
+   bool abandoned;      // its count was brought to 0 by SetRef(p,false)/Neutralize(): alive for ever, by the documented semantics
+   Info() : heap(false), canon(-1), alive(false), acq(0), rel(0), slab(-1), idx(-1), abandoned(false) {}
 };
 
 struct Track
@@ -83,12 +124,20 @@ struct Track
 static Track g_T;
 
 static std::string cs(int k) {return vh::u64s((uint64_t)(int64_t)k);}
+} // namespace
+static void vhAfterPoolUnlock()
+{
+   const int me = vh::CoopScheduler::currentIndex();
+   if ((me >= 0)&&(me < 16)&&(g_releaseUnlocksDue[me] > 0)) {g_releaseUnlocksDue[me]--; vh::CoopScheduler::yieldPoint((const void *)2);}
+}
+namespace {
 
 class Obj : public RefCountable
 {
 public:
    uint32 canary;
    uint32 val;
+   Ref<Obj> next;    // an object may hold a reference to another one (linked list)
 
    Obj() : canary(CANARY), val(0)
    {
@@ -111,15 +160,17 @@ public:
    {
       if (canary != CANARY) g_T.fail("canary of an object being reset is damaged");
       val = rhs.val;
-      if (!g_T.active) return *this;
+      if (!g_T.active) {next = rhs.next; return *this;}
       std::map<const void *, Info>::iterator it = g_T.objs.find(this);
-      if (it == g_T.objs.end()) {g_T.fail("an unknown object is being reset (recycled)"); return *this;}
+      if (it == g_T.objs.end()) {g_T.fail("an unknown object is being reset (recycled)"); next = rhs.next; return *this;}
       Info & in = it->second;
       if (in.heap) g_T.fail("heap object " + cs(in.canon) + " is being recycled into the pool");
       if (!in.alive) g_T.fail("object " + cs(in.canon) + " is released a second time (recycled while not handed out)");
       if (GetRefCount() != 0) g_T.fail("object " + cs(in.canon) + " is recycled while its reference count is " + vh::u64s(GetRefCount()));
       in.alive = false; in.rel++;
       g_T.slice += "r" + cs(in.canon);
+      {const int me = vh::CoopScheduler::currentIndex(); if ((me >= 0)&&(me < 16)) g_releaseUnlocksDue[me]++;}   // ReleaseObject() will lock and unlock the pool once
+      next = rhs.next;   // releases what this object referenced (park point: the decrement), as any member Ref would
       return *this;
    }
 
@@ -174,6 +225,7 @@ struct PoolBase
    virtual void structure(Track & T) const = 0;   // direct oracle on the bookkeeping
    virtual AbstractObjectManager * mgr() = 0;
    virtual bool allFree() const = 0;
+   virtual void lockUnlock() = 0;
 };
 
 typedef ObjectPool<Obj> DefPool;
@@ -187,6 +239,7 @@ template<int K> struct PoolK : public PoolBase
    virtual const void * mutexAddr() const {return &p._mutex;}
    virtual uint32_t cur() const {return p._curPoolSize;}
    virtual AbstractObjectManager * mgr() {return &p;}
+   virtual void lockUnlock() {(void) p._mutex.Lock(); (void) p._mutex.Unlock();}
    virtual void sanity() const {p.PerformSanityCheck();}
    virtual std::string slabsText() const
    {
@@ -224,7 +277,7 @@ template<int K> struct PoolK : public PoolBase
             std::map<const void *, Info>::const_iterator it = T.objs.find(o);
             if (it == T.objs.end()) {T.fail("a listed slab holds a node that was never constructed or is already destroyed"); continue;}
             if ((onList.count(i))&&(it->second.alive)) T.fail("object " + cs(it->second.canon) + " is handed out but sits on its slab's free list");
-            if ((onList.count(i))&&((o->GetRefCount() != 0)||(o->val != 0)||(o->GetManager() != NULL)||(o->canary != CANARY))) T.fail("a node on a free list is not in the default state");
+            if ((onList.count(i))&&((o->GetRefCount() != 0)||(o->val != 0)||(o->GetManager() != NULL)||(o->canary != CANARY)||(o->next() != NULL))) T.fail("a node on a free list is not in the default state");
             if (sl->_nodes[i].GetArrayIndex() != i) T.fail("node array index damaged");
          }
       }
@@ -268,10 +321,10 @@ static bool parseOp(const std::string & s, OpC & o)
    if ((s.size() < 2)||(s.size() > 3)) return false;
    o.k = s[0]; o.a = s[1]-'0'; o.b = (s.size() == 3) ? (s[2]-'0') : 0;
    if ((s[1] < '0')||(s[1] > '9')||(o.a >= NSLOTS)) return false;
-   if (strchr("NPRV", o.k)) return (s.size() == 2);
+   if (strchr("NPRVUTQMDZ", o.k)) return (s.size() == 2);
    if (s.size() != 3) return false;
    if ((s[2] < '0')||(s[2] > '9')) return false;
-   if (strchr("CSWK", o.k)) return (o.b < NSLOTS);
+   if (strchr("CSWKLY", o.k)) return (o.b < NSLOTS);
    if (o.k == 'X') return (o.b < NGLOB);
    return false;
 }
@@ -333,6 +386,9 @@ struct Exec
    int busy[MAXT];            // slot being modified by the operation in progress of thread i, or -1
    bool inOp[MAXT];           // thread i is between the first hook of an operation and its end
    int opsDone[MAXT];
+   const Obj * busyNext[MAXT];    // object whose `next` member thread i is modifying, or NULL
+   const Obj * busyOldT[MAXT], * busyNewT[MAXT];   // … its old target and the one being installed (NULL = cleared)
+   int stepsInOp[MAXT];           // steps thread i has taken in its current operation (1 = the step from the yield point)
    std::vector<int> executed;     // every event that RAN (plan + explicit + tail), in order
    std::vector<std::vector<int> > enabledAt;
    size_t planLen;
@@ -347,20 +403,51 @@ struct Exec
          vh::CoopScheduler::yieldPoint();
          if (S.aborting()) break;
          inOp[i] = true; busy[i] = o.a;
+         ObjRef & A = slot[i][o.a];
+         const Obj * before = A.IsRefCounting() ? A() : NULL;   // the object slot a counts before the operation
+         // a non-counting Ref may dangle: only a counting one is ever dereferenced
+         Obj * priv = ((A.IsRefCounting())&&(A())&&(A()->GetRefCount() == 1)) ? A() : NULL;   // slot a holds the ONLY reference to its object
          switch(o.k)
          {
+            case 'L':
+               if (priv)
+               {
+                  ObjRef & B = slot[i][o.b];
+                  if (B() == NULL) {busyNext[i] = priv; busyOldT[i] = busyNewT[i] = NULL; priv->next = B;}
+                  else if ((B.IsRefCounting())&&(B() != priv)&&(B() != priv->next())) {busyNext[i] = priv; busyOldT[i] = priv->next(); busyNewT[i] = B(); priv->next = B;}
+               }
+            break;
+            case 'U': if (priv) {busyNext[i] = priv; busyOldT[i] = busyNewT[i] = NULL; priv->next.Reset();} break;
+            case 'T': if ((A.IsRefCounting())&&(A())) A = A()->next; break;
+            case 'Q': if ((A.IsRefCounting())&&(A())) A.SetRef(A()->next()); break;
+            case 'Y': A.SetRef(slot[i][o.b](), false); break;
+            case 'M': if ((A())&&(!A.IsRefCounting())&&(countsElsewhere(i, o.a, A()))) A.SetRef(A(), true); break;
+            case 'D': A.SetRef(A(), false); break;
+            case 'Z': A.Neutralize(); break;
             case 'N': {g_T.heapCtor = true; Obj * p = new Obj; g_T.heapCtor = false; slot[i][o.a].SetRef(p);} break;
             case 'P': {Obj * p = pool->obtain(); noteObtained(p); slot[i][o.a].SetRef(p);} break;
             case 'C': slot[i][o.a] = slot[i][o.b]; break;
-            case 'S': slot[i][o.a].SetRef(slot[i][o.b]()); break;
+            case 'S': if ((slot[i][o.b]() == NULL)||(slot[i][o.b].IsRefCounting())) slot[i][o.a].SetRef(slot[i][o.b]()); break;
             case 'R': slot[i][o.a].Reset(); break;
             case 'W': slot[i][o.a].SwapContents(slot[i][o.b]); break;
             case 'X': slot[i][o.a].SwapContents(glob[o.b]); break;
-            case 'V': if (slot[i][o.a]()) slot[i][o.a]()->val = (uint32)(i+1); break;
+            case 'V': if ((A.IsRefCounting())&&(A())) A()->val = (uint32)(i+1); break;
             case 'K': {ConstObjRef c = AddConstToRef(slot[i][o.b]); slot[i][o.a] = CastAwayConstFromRef(c);} break;
          }
-         inOp[i] = false; busy[i] = -1; opsDone[i]++;
+         if ((before)&&(strchr("DZYC", o.k)))
+         {
+            // SetRef(p,false) / Neutralize() give up a reference WITHOUT ever deleting: an object whose count reaches 0 that way stays alive for ever
+            std::map<const void *, Info>::iterator it = g_T.objs.find(before);
+            if ((it != g_T.objs.end())&&(it->second.alive)&&(before->GetRefCount() == 0)) it->second.abandoned = true;
+         }
+         inOp[i] = false; busy[i] = -1; busyNext[i] = NULL; opsDone[i]++;
       }
+   }
+
+   bool countsElsewhere(int i, int a, const Obj * p) const
+   {
+      for (int b=0; b<NSLOTS; b++) if ((b != a)&&(slot[i][b]() == p)&&(slot[i][b].IsRefCounting())) return true;
+      return false;
    }
 
    // DIRECT ORACLE (hand-out): the object is not handed out already, is in the default state, and belongs to the pool
@@ -377,8 +464,8 @@ struct Exec
       if (in.alive) g_T.fail("object " + cs(in.canon) + " is handed out to a second holder while the first still has it");
       if ((p->val != 0)||(p->canary != CANARY)||(p->GetRefCount() != 0)) g_T.fail("object " + cs(in.canon) + " handed out by the pool differs from a default-constructed one (payload " + vh::u64s(p->val) + ", refcount " + vh::u64s(p->GetRefCount()) + ")");
       if (p->GetManager() != pool->mgr()) g_T.fail("object handed out by the pool has the wrong manager");
-      for (int t=0; t<n; t++) for (int a=0; a<NSLOTS; a++) if ((slot[t][a]() == p)&&(busy[t] != a)) g_T.fail("object " + cs(in.canon) + " is handed out while thread " + cs(t) + " still references it");
-      for (int g=0; g<NGLOB; g++) if (glob[g]() == p) g_T.fail("object " + cs(in.canon) + " is handed out while a global slot still references it");
+      for (int t=0; t<n; t++) for (int a=0; a<NSLOTS; a++) if ((slot[t][a]() == p)&&(slot[t][a].IsRefCounting())&&(busy[t] != a)) g_T.fail("object " + cs(in.canon) + " is handed out while thread " + cs(t) + " still references it");
+      for (int g=0; g<NGLOB; g++) if ((glob[g]() == p)&&(glob[g].IsRefCounting())) g_T.fail("object " + cs(in.canon) + " is handed out while a global slot still references it");
       in.alive = true; in.acq++;
    }
 
@@ -392,6 +479,15 @@ struct Exec
          const Obj * o = (const Obj *) g_T.byCanon[k];
          if (!s.empty()) s += ",";
          s += vh::u64s(k) + "/" + vh::u64s(o->GetRefCount()) + "/" + vh::u64s(o->val);
+         // the member Ref writes its pointer only after the old target has been released (several steps later): show the
+         // logical value — the new target from the step of the increment on, NULL at once when the member is being cleared
+         const Obj * nx = o->next();
+         for (int t=0; t<n; t++) if (busyNext[t] == o) nx = (stepsInOp[t] >= 2) ? busyNewT[t] : busyOldT[t];
+         if (nx)
+         {
+            std::map<const void *, Info>::const_iterator nt = g_T.objs.find(nx);
+            s += ">" + ((nt == g_T.objs.end()) ? std::string("?") : cs(nt->second.canon));
+         }
       }
       return s.empty() ? std::string("_") : s;
    }
@@ -402,8 +498,16 @@ struct Exec
       std::map<const void *, uint32_t> visible;
       bool quiet = true;
       for (int t=0; t<n; t++) if (inOp[t]) quiet = false;
-      for (int t=0; t<n; t++) for (int a=0; a<NSLOTS; a++) if ((slot[t][a]())&&(busy[t] != a)) visible[slot[t][a]()]++;
-      for (int g=0; g<NGLOB; g++) if (glob[g]()) visible[glob[g]()]++;
+      for (int t=0; t<n; t++) for (int a=0; a<NSLOTS; a++) if ((slot[t][a]())&&(slot[t][a].IsRefCounting())&&(busy[t] != a)) visible[slot[t][a]()]++;
+      for (int g=0; g<NGLOB; g++) if ((glob[g]())&&(glob[g].IsRefCounting())) visible[glob[g]()]++;
+      // the `next` member of every live object is a reference too (unless that member is being modified right now)
+      for (std::map<const void *, Info>::const_iterator it = g_T.objs.begin(); it != g_T.objs.end(); ++it) if (it->second.alive)
+      {
+         const Obj * o = (const Obj *) it->first;
+         bool skip = false;
+         for (int t=0; t<n; t++) if (busyNext[t] == o) skip = true;
+         if ((!skip)&&(o->next())) visible[o->next()]++;
+      }
       for (std::map<const void *, uint32_t>::const_iterator v = visible.begin(); v != visible.end(); ++v)
       {
          std::map<const void *, Info>::const_iterator it = g_T.objs.find(v->first);
@@ -414,11 +518,13 @@ struct Exec
          if (o->GetRefCount() < v->second) g_T.fail("reference count " + vh::u64s(o->GetRefCount()) + " of object " + cs(it->second.canon) + " is below its " + vh::u64s(v->second) + " visible references");
          if ((quiet)&&(o->GetRefCount() != v->second)) g_T.fail("reference count " + vh::u64s(o->GetRefCount()) + " of object " + cs(it->second.canon) + " differs from its " + vh::u64s(v->second) + " references while no operation is in progress");
       }
-      if (quiet) for (std::map<const void *, Info>::const_iterator it = g_T.objs.begin(); it != g_T.objs.end(); ++it) if ((it->second.alive)&&(visible.count(it->first) == 0)) g_T.fail("object " + cs(it->second.canon) + " is alive but unreferenced while no operation is in progress (leak)");
+      if (quiet) for (std::map<const void *, Info>::const_iterator it = g_T.objs.begin(); it != g_T.objs.end(); ++it) if ((it->second.alive)&&(!it->second.abandoned)&&(visible.count(it->first) == 0)) g_T.fail("object " + cs(it->second.canon) + " is alive but unreferenced while no operation is in progress (leak)");
       for (std::map<const void *, Info>::const_iterator it = g_T.objs.begin(); it != g_T.objs.end(); ++it) if (it->second.acq != it->second.rel + (it->second.alive ? 1 : 0)) g_T.fail("object " + cs(it->second.canon) + ": hand-outs " + vh::u64s(it->second.acq) + " vs releases " + vh::u64s(it->second.rel));
       pool->sanity();
       pool->structure(g_T);
    }
+
+   void countStep(int i) {const vh::CoopScheduler::Park p = S.parkOf(i); if ((p.kind == vh::CoopScheduler::PK_YIELD)&&(p.obj == NULL)) stepsInOp[i] = 1; else stepsInOp[i]++;}
 
    void noteEnabled()
    {
@@ -432,13 +538,18 @@ struct Exec
    std::string run(const Line & L, int policy = 0, const std::vector<std::pair<int,int> > * plan = NULL)
    {
       S.reset();
-      S.install();
-      S.setAllAtomicCountersRelevant(true);
+      S.uninstall();
+      g_poolNative = NULL;
+      for (int i=0; i<16; i++) g_releaseUnlocksDue[i] = 0;
       g_T.clear(); g_T.N = L.N; g_T.active = true;
       pool = makePool(L.N, L.maxPool);
+      g_recorded = NULL; g_recordUnlock = true; pool->lockUnlock(); g_recordUnlock = false; g_poolNative = g_recorded;   // which pthread mutex is the pool's?
+      if (g_poolNative == NULL) g_T.fail("harness: could not identify the pool's pthread mutex");
+      S.install();
+      S.setAllAtomicCountersRelevant(true);
       S.registerObject(pool->mutexAddr());
       cur = L; n = (int) L.progs.size();
-      for (int i=0; i<MAXT; i++) {busy[i] = -1; inOp[i] = false; opsDone[i] = 0;}
+      for (int i=0; i<MAXT; i++) {busy[i] = -1; inOp[i] = false; opsDone[i] = 0; busyNext[i] = NULL; stepsInOp[i] = 0;}
       executed.clear(); enabledAt.clear(); planLen = 0;
       for (int i=0; i<n; i++) {Exec * self = this; S.spawn([self, i]() {self->body(i);});}
 
@@ -453,7 +564,7 @@ struct Exec
          {
             g_T.slice.clear();
             if (g_genMode) {g_pendingLine = ranText + " " + cs(i); ranText = g_pendingLine;}
-            noteEnabled(); (void) S.grant(i); executed.push_back(i); afterStep(); last = i;
+            noteEnabled(); countStep(i); (void) S.grant(i); executed.push_back(i); afterStep(); last = i;
          }
          planLen = executed.size();
       }
@@ -463,7 +574,7 @@ struct Exec
          if (g_genMode) g_pendingLine = ranText + " " + cs(i);
          g_T.slice.clear();
          const bool en = (i < n)&&(S.runnable(i));
-         if (en) noteEnabled();
+         if (en) {noteEnabled(); countStep(i);}
          const vh::CoopScheduler::StepResult r = (i < n) ? S.grant(i) : vh::CoopScheduler::STEP_SKIPPED;
          if (!out.empty()) out += " ";
          out += cs(i) + ":";
@@ -479,7 +590,7 @@ struct Exec
          if (pick < 0) break;
          g_T.slice.clear();
          if (g_genMode) {g_pendingLine = ranText + " " + cs(pick); ranText = g_pendingLine;}
-         noteEnabled();
+         noteEnabled(); countStep(pick);
          (void) S.grant(pick);
          afterStep();
          out += " " + cs(pick) + ":" + g_T.slice + "=" + digest();
@@ -499,6 +610,12 @@ struct Exec
       g_T.slice.clear();
       for (int t=0; t<MAXT; t++) for (int a=0; a<NSLOTS; a++) slot[t][a].Reset();
       for (int g=0; g<NGLOB; g++) glob[g].Reset();
+      {
+         // objects abandoned by SetRef(p,false)/Neutralize() (count 0, alive): released here, by hand, as their owner would have to
+         std::vector<Obj *> ab;
+         for (std::map<const void *, Info>::const_iterator it = g_T.objs.begin(); it != g_T.objs.end(); ++it) if ((it->second.alive)&&(it->second.abandoned)&&(((const Obj *)it->first)->GetRefCount() == 0)) ab.push_back((Obj *) it->first);
+         for (size_t k=0; k<ab.size(); k++) {if (g_T.objs.count(ab[k]) == 0) continue; if (ab[k]->GetManager()) ab[k]->GetManager()->RecycleObject(ab[k]); else delete ab[k];}
+      }
       if (done)
       {
          for (std::map<const void *, Info>::const_iterator it = g_T.objs.begin(); it != g_T.objs.end(); ++it)
@@ -510,6 +627,7 @@ struct Exec
          pool->sanity(); pool->structure(g_T);
          if (!pool->allFree()) g_T.fail("a slab is still in use after every reference was dropped");
       }
+      g_poolNative = NULL;
       if (pool->allFree()) delete pool; /* else: deleting it would MCRASH; leak it (already reported) */
       pool = NULL;
       if ((done)&&(g_T.nodeCtors != g_T.nodeDtors)) g_T.fail("slab nodes constructed " + vh::u64s((uint64_t)g_T.nodeCtors) + " vs destroyed " + vh::u64s((uint64_t)g_T.nodeDtors));
@@ -550,8 +668,19 @@ struct RCEngine : public vh::Engine
 
    std::string randomOp(vh::Rng & rng, uint32_t poolBias)
    {
-      const uint32_t k = rng.below(24);
+      const uint32_t k = rng.below(38);
       const int a = (int) rng.below(NSLOTS), b = (int) rng.below(NSLOTS);
+      if (k >= 24)
+      {
+         if (k < 28) return opText('L', a, b);
+         if (k < 29) return opText('U', a);
+         if (k < 32) return opText(rng.chance(1,2) ? 'T' : 'Q', a);
+         if (k < 34) return opText('Y', a, b);
+         if (k < 35) return opText('M', a);
+         if (k < 36) return opText('D', a);
+         if (k < 37) return opText('Z', a);
+         return opText('C', a, b);
+      }
       if (k < 5)  return rng.chance(poolBias, 10) ? opText('P', a) : opText('N', a);
       if (k < 9)  return opText('C', a, b);
       if (k < 10) return opText('S', a, b);
@@ -636,8 +765,66 @@ struct RCEngine : public vh::Engine
          const uint32_t nt = rng.range(2, (p%3 == 0) ? 3 : 2);
          std::vector<std::string> progs;
          std::vector<std::pair<int,int> > plan;
-         const uint32_t shape = rng.below(4);
-         if (shape < 3)
+         const uint32_t shape = rng.below(7);
+         if (shape == 4)
+         {
+            // a linked list built by thread 0 (head -> second [-> third]); every thread gets a reference to the head, then pops / drops concurrently
+            std::vector<std::string> p0;
+            const char mk = rng.chance(2,3) ? 'P' : 'N';
+            p0.push_back(opText(mk, 0)); p0.push_back(opText(mk, 1)); p0.push_back("L01"); p0.push_back("R1");
+            if (rng.chance(1,2)) {p0.push_back(opText(mk, 1)); p0.push_back("L10"); p0.push_back("W01"); p0.push_back("R1");}   // third -> head: the new object becomes the head
+            for (uint32_t j=1; j<nt; j++) {p0.push_back("C10"); p0.push_back(opText('X', 1, (int)(j-1)));}
+            plan.push_back(std::make_pair(0, (int) p0.size()));
+            const uint32_t extra0 = rng.range(1, 3);
+            for (uint32_t e=0; e<extra0; e++) p0.push_back(rng.chance(1,2) ? std::string(rng.chance(1,2) ? "T0" : "Q0") : (rng.chance(1,2) ? std::string("R0") : randomOp(rng, 8)));
+            progs.push_back(joinOps(p0));
+            for (uint32_t j=1; j<nt; j++)
+            {
+               std::vector<std::string> pj; pj.push_back(opText('X', 0, (int)(j-1)));
+               plan.push_back(std::make_pair((int) j, 1));
+               const uint32_t extra = rng.range(1, 3);
+               for (uint32_t e=0; e<extra; e++) pj.push_back(rng.chance(1,2) ? std::string(rng.chance(1,2) ? "T0" : "Q0") : (rng.chance(1,2) ? std::string("R0") : randomOp(rng, 8)));
+               progs.push_back(joinOps(pj));
+            }
+         }
+         else if (shape == 5)
+         {
+            // non-counting Refs: an alias is made, promoted / demoted / neutralized while another thread drops its counting reference
+            std::vector<std::string> p0;
+            p0.push_back(rng.chance(2,3) ? "P0" : "N0");
+            for (uint32_t j=1; j<nt; j++) {p0.push_back("C10"); p0.push_back(opText('X', 1, (int)(j-1)));}
+            plan.push_back(std::make_pair(0, (int) p0.size()));
+            static const char * W[] = {"Y10", "M1", "R0", "D0", "Z0", "M0", "C21", "R1", "Y20", "M2", "C10", "D1", "K10"};
+            const uint32_t extra0 = rng.range(2, 4);
+            for (uint32_t e=0; e<extra0; e++) p0.push_back(W[rng.below(13)]);
+            progs.push_back(joinOps(p0));
+            for (uint32_t j=1; j<nt; j++)
+            {
+               std::vector<std::string> pj; pj.push_back(opText('X', 0, (int)(j-1)));
+               plan.push_back(std::make_pair((int) j, 1));
+               const uint32_t extra = rng.range(1, 3);
+               for (uint32_t e=0; e<extra; e++) pj.push_back(rng.chance(1,2) ? std::string(W[rng.below(13)]) : std::string("R0"));
+               progs.push_back(joinOps(pj));
+            }
+         }
+         else if (shape == 6)
+         {
+            // single-thread set-up of a chain, then two threads each hold the head and walk it
+            std::vector<std::string> p0;
+            p0.push_back("P0"); p0.push_back("P1"); p0.push_back("P2"); p0.push_back("L12"); p0.push_back("R2"); p0.push_back("L01"); p0.push_back("R1");
+            for (uint32_t j=1; j<nt; j++) {p0.push_back("C10"); p0.push_back(opText('X', 1, (int)(j-1)));}
+            plan.push_back(std::make_pair(0, (int) p0.size()));
+            p0.push_back(rng.chance(1,2) ? "T0" : "R0"); if (rng.chance(1,2)) p0.push_back("T0");
+            progs.push_back(joinOps(p0));
+            for (uint32_t j=1; j<nt; j++)
+            {
+               std::vector<std::string> pj; pj.push_back(opText('X', 0, (int)(j-1)));
+               plan.push_back(std::make_pair((int) j, 1));
+               pj.push_back(rng.chance(1,2) ? "Q0" : "R0"); if (rng.chance(1,2)) pj.push_back("T0");
+               progs.push_back(joinOps(pj));
+            }
+         }
+         else if (shape < 3)
          {
             // thread 0 creates an object and hands one reference to every other thread; then everybody drops/copies concurrently
             std::vector<std::string> p0;
